@@ -39,7 +39,14 @@ type fSP struct {
 	F func() int
 }
 
+type fS1P struct{ P *int }
+type fS1M struct{ M map[string]int }
+type fS1F struct{ F func() int }
+type fS1N struct{ In fS1P }
+
 var standIn = map[reflect.Type]reflect.Type{
+	reflect.TypeOf(corpus.S1P{}): reflect.TypeOf(fS1P{}), reflect.TypeOf(corpus.S1M{}): reflect.TypeOf(fS1M{}),
+	reflect.TypeOf(corpus.S1F{}): reflect.TypeOf(fS1F{}), reflect.TypeOf(corpus.S1N{}): reflect.TypeOf(fS1N{}),
 	reflect.TypeOf(corpus.S2{}): reflect.TypeOf(fS2{}), reflect.TypeOf(corpus.S5{}): reflect.TypeOf(fS5{}), reflect.TypeOf(corpus.SA{}): reflect.TypeOf(fSA{}),
 	reflect.TypeOf(corpus.SF{}): reflect.TypeOf(fSF{}), reflect.TypeOf(corpus.SP{}): reflect.TypeOf(fSP{}),
 }
@@ -170,6 +177,9 @@ func runRet(ci interface{}, s *vkit.Stats) error {
 			real := vkit.Value(t, code+1)
 			fake := reflect.NewAt(ft, unsafe.Pointer(real.Addr().Pointer())).Elem() // same bytes, stand-in type
 			vals[i] = fake.Interface()
+			if t.Size() == 8 {
+				s.Class("standin/pointer-shaped-struct")
+			}
 			want[i] = real
 		case "standin-ptr":
 			ft := standIn[t.Elem()]
@@ -255,6 +265,9 @@ func pStruct(v corpus.S5, m map[string]int) int { return 2 }
 //go:noinline
 func pFunc(f func() int, s []int) int { return 3 }
 
+//go:noinline
+func pShaped(v corpus.S1P, n corpus.S1N) int { return 4 }
+
 type whenCase struct {
 	Target string `json:"target"`
 	Kind   string `json:"kind"`
@@ -295,6 +308,18 @@ func runWhen(ci interface{}, s *vkit.Stats) error {
 			b.Func(pStruct).Return(-1).When(pat, nil).Return(100)
 			got = pStruct(real, nil)
 			miss = pStruct(corpus.S5{A: c.Code + 1}, nil)
+		})
+	case "pShaped":
+		x, y := int(c.Code), int(c.Code)+1
+		real := corpus.S1P{P: &x}
+		var pat interface{} = real
+		if c.Kind == "standin" {
+			pat = fS1P{P: &x}
+		}
+		pv = guard(func() {
+			b.Func(pShaped).Return(-1).When(pat, corpus.S1N{}).Return(100)
+			got = pShaped(real, corpus.S1N{})
+			miss = pShaped(corpus.S1P{P: &y}, corpus.S1N{})
 		})
 	default:
 		pv = guard(func() {
@@ -346,8 +371,8 @@ func TestVerifC09(t *testing.T) {
 	}
 	w := &vkit.Prop{ID: "C09", Unit: "conditions", New: func() interface{} { return &whenCase{} },
 		Gen: func(rt *rapid.T) interface{} {
-			tg := rapid.SampledFrom([]string{"pPtr", "pStruct", "pFunc"}).Draw(rt, "target")
-			kinds := map[string][]string{"pPtr": {"ordinary", "untyped-nil", "typed-nil", "standin-ptr"}, "pStruct": {"ordinary", "standin"}, "pFunc": {"untyped-nil"}}
+			tg := rapid.SampledFrom([]string{"pPtr", "pStruct", "pFunc", "pShaped"}).Draw(rt, "target")
+			kinds := map[string][]string{"pPtr": {"ordinary", "untyped-nil", "typed-nil", "standin-ptr"}, "pStruct": {"ordinary", "standin"}, "pFunc": {"untyped-nil"}, "pShaped": {"ordinary", "standin"}}
 			return &whenCase{Target: tg, Kind: rapid.SampledFrom(kinds[tg]).Draw(rt, "kind"), Code: uint64(rapid.IntRange(0, 1000).Draw(rt, "code"))}
 		},
 		Run: runWhen}
